@@ -45,7 +45,8 @@ contract(f"{M}:RTCSctpTransport._data_channel_closed", params={"stream_id": "int
                   "same(self._data_channels[k], old(self._data_channels[k]))))",
                   "all_in(self._data_channels, lambda k: k in old(self._data_channels))",
                   "now(old(self._data_channels[stream_id])).__readyState == 'closed'"],
-         modifies=["content(self._data_channels)", "*RTCDataChannel._RTCDataChannel__readyState", "*list<Seq_Str>"],
+         modifies=["content(self._data_channels)", "self._data_channels[stream_id].__readyState",
+                   "content(self._data_channels[stream_id].emitted)"],
          tags=["C13"])
 
 MATCH = "(old(self._reconfig_request) is not None and param.response_sequence == old(self._reconfig_request.request_sequence))"
@@ -150,4 +151,52 @@ contract(f"{M}:RTCSctpTransport._data_channel_close", params={"channel": "RTCDat
              "channel.__readyState == 'closing' and self._reconfig_queue == old(self._reconfig_queue)"])},
          modifies=["content(self._reconfig_queue)", "self._data_channel_queue", "content(self._data_channels)",
                    "channel.__readyState", "content(channel.emitted)"],
+         tags=["C13"])
+
+# ---------------------------------------------------------------------------- association state changes
+klass(f"{M}:RTCSctpTransport", fields={"__state": "str"})
+
+DC = "self._data_channels"
+contract(f"{M}:RTCSctpTransport._set_state", params={"state": "RTCSctpTransport.State"},
+         requires=[
+             # the table holds live channels only: a closed channel has been unregistered (only _data_channel_closed and
+             # the local branch of _data_channel_close close a channel, and both unregister it)
+             f"all_in({DC}, lambda k: {DC}[k].__readyState != 'closed')",
+             # a negotiated channel cannot be closing before the association is established (close() is local then)
+             f"implies(state == RTCSctpTransport.State.ESTABLISHED, all_in({DC}, lambda k: implies({DC}[k].__parameters.negotiated, "
+             f"{DC}[k].__readyState != 'closing')))"],
+         raises={},
+         ensures=[
+             "self._association_state == state",
+             # established: every negotiated channel is open, the others are as they were; nothing is unregistered
+             f"implies(state == RTCSctpTransport.State.ESTABLISHED, all_in({DC}, lambda k: "
+             f"implies({DC}[k].__parameters.negotiated, {DC}[k].__readyState == 'open') and "
+             f"implies(not {DC}[k].__parameters.negotiated, {DC}[k].__readyState == old({DC}[k].__readyState))))",
+             f"implies(state != RTCSctpTransport.State.CLOSED, all_in(old({DC}), lambda k: k in {DC} and same({DC}[k], old({DC}[k]))))",
+             # closed: when the association ends every channel closes and is unregistered
+             f"implies(state == RTCSctpTransport.State.CLOSED, all_in(old({DC}), lambda k: not (k in {DC}) and "
+             f"now(old({DC}[k])).__readyState == 'closed'))",
+             f"implies(state == RTCSctpTransport.State.CLOSED, all_in({DC}, lambda k: False))",
+             # any other state leaves the channels alone
+             f"implies(state != RTCSctpTransport.State.CLOSED and state != RTCSctpTransport.State.ESTABLISHED, "
+             f"all_in({DC}, lambda k: {DC}[k].__readyState == old({DC}[k].__readyState)))",
+         ],
+         loops={0: dict(kind="for", index="i0", invariant=[
+                    "self._association_state == state",
+                    f"all_in(old({DC}), lambda k: k in {DC} and same({DC}[k], old({DC}[k])))",
+                    f"all_in({DC}, lambda k: k in old({DC}))",
+                    f"all_in({DC}, lambda k: implies(not {DC}[k].__parameters.negotiated, "
+                    f"{DC}[k].__readyState == old({DC}[k].__readyState)))",
+                    f"forall(lambda j: implies(loop_seq(0)[j].__parameters.negotiated, loop_seq(0)[j].__readyState == 'open'), 0, i0)",
+                    f"all_in({DC}, lambda k: implies({DC}[k].__parameters.negotiated, {DC}[k].__readyState == 'open' or "
+                    f"{DC}[k].__readyState == old({DC}[k].__readyState)))"]),
+                1: dict(kind="for", index="i1", invariant=[
+                    "self._association_state == state",
+                    f"all_in({DC}, lambda k: k in old({DC}) and same({DC}[k], old({DC}[k])))",
+                    f"forall(lambda j: not (loop_seq(1)[j] in {DC}) and now(old({DC}[loop_seq(1)[j]])).__readyState == 'closed', 0, i1)",
+                    f"forall(lambda j: loop_seq(1)[j] in {DC}, i1, len(loop_seq(1)))",
+                    f"all_in(old({DC}), lambda k: k in {DC} or now(old({DC}[k])).__readyState == 'closed')"])},
+         modifies=["self._association_state", "self.__state", "content(self._data_channels)",
+                   "*RTCDataChannel._RTCDataChannel__readyState", "*list<Seq_Str>"],
+         opaque_calls=["__log_debug", "_t1_cancel", "_t2_cancel", "_t3_cancel"],
          tags=["C13"])
